@@ -163,8 +163,10 @@ func EncodeLegacy(magic int, codec int, recs []Rec, o CompressOpts) ([]byte, err
 	for i, r := range recs {
 		off := r.Offset
 		if magic >= 1 {
-			off = int64(i)
+			// relative inner offsets; gaps left by compaction are preserved
+			off = r.Offset - recs[0].Offset
 		}
+		_ = i
 		if r.TimestampMs > maxTs {
 			maxTs = r.TimestampMs
 		}
